@@ -10,7 +10,14 @@ THEME5 = ("Aim for a regression that only shows through a COMPOSITION or at SCAL
           "an entry that comes LAST or FIRST among several, or two entries that resemble each other (same prefix in their names, same "
           "description, same type). Prefer anchored files the earlier participants did not touch. The previous round asked for the following, "
           "which is still welcome: ")
-theme = THEME5 if rnd == "5" else ""
+THEME6 = ("This time break a SECONDARY CLAUSE of the property rather than its headline: read the statement sentence by sentence and pick "
+          "a guarantee that is easy to forget - what stays UNCHANGED (comments, other definitions, other defaults, the input file, the "
+          "source package, an existing output file), what must hold when something FAILS or is refused (file left byte-identical, "
+          "nothing written, nothing executed), what must hold EXACTLY (exactly one primary key, exactly the requested operations, required "
+          "exactly when not Optional, exactly those names in __all__), what must hold for EVERY member (every $ref, every generated file, "
+          "every parameter of the signature, every module), or the ORDER of things. The regression should leave the headline behaviour "
+          "intact. Prefer anchored files the earlier participants did not touch. Earlier rounds asked for the following, still welcome: ")
+theme = THEME5 if rnd == "5" else (THEME6 if rnd == "6" else "")
 out = "/tmp/wt/prompts%s" % rnd
 os.makedirs(out, exist_ok=True)
 tpl = open("/tmp/wt/prompts3/C01.txt").read()
